@@ -32,7 +32,7 @@ def S(procs, calls, steps=None, step_deps=None, **kw):
 
 
 def scheduler_corpus():
-    """pre-fix witnesses of F1–F4, F13, F22 and a few hand-made schedules"""
+    """pre-fix witnesses of F1–F4, F13, F22, F24, F30 and a few hand-made schedules"""
     return [
         S([P('p0', [3])], [[10, True]]),                                         # F1
         S([P('p0', [1], {'script': [False]})], [[5, True]]),                     # F2
@@ -42,6 +42,10 @@ def scheduler_corpus():
         S([P('p0', [5, 1]), P('p1', [2])], [[2, False], [2, False], [3, True]], unit=0.5),
         S([P('p0', [5])], [[10, True]], emit_ticks=2),                           # F13
         S([P('p0', [2])], [[5, True], [7, True]], unit=0.01, prec=2),            # F22
+        S([P('p0', [2, 7])], [[9, True]], unit=0.1, prec=1),                     # F24
+        S([P('p0', [17, 28])], [[15, False], [28, True]], unit=0.01, prec=2),    # F30
+        S([P('p0', [3]), P('p1', [1])], [[2, False], [4, True]], t0=4),          # an engine resumed at t0 = 4
+        S([P('p0', [2])], [[1, False], [2, True]], unit=0.1, prec=1, t0=1),      # 0.1 + 0.1 + 0.2 on the grid
         S([P('p0', [2]), P('p1', [3]), P('p2', [7])], [[5, False], [4, False], [6, True]]),
         S([P('p0', [4]), P('p1', [4])], [[8, True]]),
     ]
